@@ -40,6 +40,8 @@ def sample(ax, r):
             else:
                 vals.append(rnd_int(r))
             seen_int = True
+        elif s == "list":
+            vals.append([r.randrange(-3, 4) for _ in range(r.choice([0, 1, 2, 3, 5, 8]))])
         else:
             vals.append(rnd_bytes(r))
     return vals
@@ -61,7 +63,7 @@ def run(seed, n=150, cvc5_s=0):
                 # steer integer arguments that index into byte strings
                 for i, s in enumerate(ax.sorts):
                     if s == "int" and r.random() < 0.7:
-                        bs = [v for v, ss in zip(vals, ax.sorts) if ss == "bytes"]
+                        bs = [v for v, ss in zip(vals, ax.sorts) if ss in ("bytes", "list")]
                         if bs:
                             vals[i] = r.randrange(0, len(bs[0]) + 2)
                 if ax.fit is not None:
@@ -93,6 +95,8 @@ def run(seed, n=150, cvc5_s=0):
                 if srt == "int":
                     vals.append(r.randrange(-3, 70) if (seen or ax.small) and r.random() < 0.8 else r.choice([r.randrange(-300, 600), rnd_int(r) % (2 ** 64)]))
                     seen = True
+                elif srt == "list":
+                    vals.append([r.randrange(-3, 4) for _ in range(r.choice([0, 1, 2, 3, 5]))])
                 else:
                     vals.append(rnd_bytes(r))
             if ax.small and max(abs(v) for v in vals if isinstance(v, int)) > 600:
